@@ -71,8 +71,8 @@ pub fn fault_kind_strategy() -> BoxedStrategy<FaultKind> {
         2 => Just(FaultKind::DropLastLine),
         3 => garbage_bytes().prop_map(FaultKind::Garbage),
         2 => garbage_bytes().prop_map(FaultKind::AppendGarbage),
-        2 => (any::<u16>(), proptest::collection::vec(any::<u8>(), 1..8))
-            .prop_map(|(at, bytes)| FaultKind::Corrupt { at, bytes }),
+        // `Corrupt` (in-place byte flips that can leave every record well-formed) is deliberately
+        // not generated: the property lists delete / truncate / overwrite with garbage / roll back.
         3 => any::<u16>().prop_map(FaultKind::Rollback),
     ]
     .boxed()
@@ -209,10 +209,13 @@ pub fn apply(dir: &Path, fault: &Fault, versions: &Versions) -> Option<Applied> 
             if changed {
                 let _ = std::fs::write(&path, bytes);
             }
+            // a whitespace-only file reads as "no records yet": the image of the earliest version
+            let blank = bytes.iter().all(|b| b.is_ascii_whitespace());
             let stale = changed
-                && bytes.len() < before.len()
-                && before.starts_with(bytes)
-                && (bytes.is_empty() || bytes.last() == Some(&b'\n'));
+                && (blank
+                    || (bytes.len() < before.len()
+                        && before.starts_with(bytes)
+                        && bytes.last() == Some(&b'\n')));
             (changed, stale)
         }
     };
